@@ -333,3 +333,17 @@ func Verif_C02_node_names_are_exact() {
 		}
 	}
 }
+
+// Verif_C02_service_names_are_bytes: service names are up to 8 arbitrary non-zero BYTES, not text: names
+// that are not valid UTF-8 ("\xff", Latin-1 "cli\xe9nt", a lone continuation byte) come out of the wire
+// decoder byte for byte as they went in.
+func Verif_C02_service_names_are_bytes() {
+	s := verifNetceptor("A").s
+	names := []string{"\xff", "cli\xe9nt", "\x80", "a\xc3", "ok"}
+	md := &MessageData{FromNode: "A", ToNode: "A", FromService: names[verifapi.Choose(5)], ToService: names[verifapi.Choose(5)], HopsToLive: 3, Data: []byte{1}}
+	wire, err := s.translateDataFromMessage(md)
+	verifapi.Assert("encoded", err == nil)
+	back, derr := s.translateDataToMessage(wire)
+	verifapi.Cover("decoded")
+	verifapi.Assert("service-names-come-back-byte-for-byte", verifapi.All(derr == nil, back.FromService == md.FromService, back.ToService == md.ToService))
+}
